@@ -35,6 +35,8 @@ func checkC02(w *World, r *Report) {
 	ruleSmuxBuffers(w, r, "R02.7")
 	r.Rule("R02.6", "every serving goroutine works on the stream accepted for it (no shared re-assigned variable)", 1)
 
+	r.Rule("R02.9", "all logical connections ride one physical session: the session is (re)opened only under the mutex and under a reuse test made while it is held (two sessions on one upstream object cross their streams)", 4)
+	ruleSharedSession(w, r, "R02.9", w.Method("internal/client/upstream", "Upstreams", "Connect"), w.Method("internal/client/upstream", "Upstreams", "open"))
 	r.Rule("R02.8", "per-connection goroutines keep their state in locals: no store into the object all of them share", 2)
 	ruleHandlersKeepStateLocal(w, r, "R02.8")
 	ruleAcceptLoopNotOccupied(w, r, "R02.1", map[string]bool{"stream": true}, nil)
@@ -126,7 +128,7 @@ func checkC02(w *World, r *Report) {
 			if _, isDefer := c.(*ssa.Defer); isDefer {
 				continue
 			}
-			if isMethod(sCallee(c), "sync", "Mutex", "Lock") && lock == nil {
+			if (isMethod(sCallee(c), "sync", "Mutex", "Lock") || isMethod(sCallee(c), "sync", "RWMutex", "Lock")) && lock == nil {
 				lock, fn = c, g
 			}
 		}
@@ -145,7 +147,7 @@ func checkC02(w *World, r *Report) {
 		if _, isD := in.(*ssa.Defer); isD {
 			return false
 		}
-		return isMethod(sCallee(c), "sync", "Mutex", "Unlock")
+		return isMethod(sCallee(c), "sync", "Mutex", "Unlock") || isMethod(sCallee(c), "sync", "RWMutex", "Unlock")
 	}
 	perStream := func(c ssa.CallInstruction) string {
 		f := sCallee(c)
@@ -232,6 +234,8 @@ func checkC14(w *World, r *Report) {
 	r.Rule("R14.3", "stream accept loop terminates with the session (no error spin)", 1)
 	r.Rule("R14.4", "per-connection handlers close what they accepted", 2)
 	r.Rule("R14.6", "a wrapper is marked closed only by its Close (else later closes are skipped and the descriptor leaks)", 4)
+	r.Rule("R14.7", "Close of a carrier wrapper never waits for the peer without a bound (goodbye frames and flushes need a deadline)", 5)
+	ruleCloseDoesNotWaitForPeer(w, r, "R14.7")
 	ruleClosedFlagOnlyByClose(w, r, "R14.6")
 	r.Rule("R14.5", "no orphaned physical session: the shared connection/session are replaced only under the mutex and only after a reuse test made under it", 4)
 	ruleSharedSession(w, r, "R14.5", w.Method("internal/client/upstream", "Upstreams", "Connect"), w.Method("internal/client/upstream", "Upstreams", "open"))
@@ -322,6 +326,13 @@ func checkC15(w *World, r *Report) {
 	ruleNoWaitUnderLock(w, r, "R15.3", func(m *types.Var) bool {
 		return m.Name() == "usersLock" || strings.HasPrefix(fieldOwner(m), "server.")
 	}, "every other peer that needs this lock (new sessions, closes, the pruner) waits as long as this one peer chooses")
+	r.Rule("R15.5", "no answer is written to a peer, and nothing else waits for one, while a lock shared by all peers of a DNS endpoint is held", 1)
+	lockPeerWrites = true
+	ruleNoWaitUnderLock(w, r, "R15.5", func(m *types.Var) bool {
+		o := fieldOwner(m)
+		return strings.HasSuffix(o, ".NetConnectionServerCommunicator") || strings.HasSuffix(o, ".ServerDnsListener")
+	}, "a DNS-over-TCP peer that does not drain its answers holds the endpoint's lock: every other peer's handshake and data wait for it")
+	lockPeerWrites = false
 	ruleNoReentrantLock(w, r, "R15.2", func(p string) bool {
 		return p == modPath+"/internal/server" || strings.HasPrefix(p, modPath+"/internal/streams")
 	})
@@ -393,6 +404,8 @@ func checkC17(w *World, r *Report) {
 	c01WriteCountsRule(w, r, "R17.7")
 	r.Rule("R17.8", "a deadline armed on a connection is disarmed in both directions before the connection lives on as a session (a left-over write deadline loses the target's answer and the end-of-stream)", 1)
 	ruleDeadlinePairing(w, r, "R17.8")
+	r.Rule("R17.9", "no connection is closed abortively: SO_LINGER is left at the system default everywhere", 1)
+	ruleNoAbortiveClose(w, r, "R17.9")
 	r.Rule("R17.6", "after the first copier reported, no close waits for the second report", 1)
 	r.Rule("R17.5", "a reader+writer pair closes its write half on every path (the peer's end-of-stream)", 1)
 	r.Rule("R17.4", "open transfers are not cut by another logical connection's failure (who may close the shared session)", 2)
